@@ -861,9 +861,13 @@ def inline_new_helpers(tree, modname):
                     pre = []
                     mapping = {}
                     stored_params = {x.id for x in ast.walk(hfn) if isinstance(x, ast.Name) and isinstance(x.ctx, ast.Store)} & set(params)
+                    tgt_name = st.targets[0].id if (isinstance(st, ast.Assign) and len(st.targets) == 1 and isinstance(st.targets[0], ast.Name)) else None
                     for p_ in params:
                         a_ = bind[p_]
                         if _simple_arg(a_) and p_ not in stored_params:
+                            mapping[p_] = a_
+                        elif isinstance(a_, ast.Name) and a_.id == tgt_name and sum(1 for q_ in params if isinstance(bind[q_], ast.Name) and bind[q_].id == tgt_name) == 1:
+                            # x = helper(..., x, ...): the helper may re-bind its copy of x - the caller's x is overwritten by the result anyway
                             mapping[p_] = a_
                         else:
                             tmp = "_%s_%d" % (p_, counter[0]) if (p_ in names_in_caller) else p_
